@@ -294,4 +294,33 @@ theorem C11_extract_no_stall_witness :
       .msgs [List.replicate 503 120, List.replicate 55 121]] ∧ res.1.rq.length = 0 := by
   decide +kernel
 
+/-! ### the channel's user (worker side): spec used by the `chanworker` run -/
+
+def wreqs : List WEv → List Nat
+  | [] => []
+  | .req i :: es => i :: wreqs es
+  | .read _ :: es => wreqs es
+
+/-- The worker-side spec the `chanworker` run compares the real `Server`
+    against: whatever the interleaving of request bursts and reads, the
+    answers read so far followed by the unanswered ids are exactly the
+    requests, in order (each answered exactly once, in request order). -/
+theorem C11_worker_spec_fifo (q0 : List Nat) (evs : List WEv) :
+    (wrun q0 evs).2.flatten ++ (wrun q0 evs).1 = q0 ++ wreqs evs := by
+  induction evs generalizing q0 with
+  | nil => simp [wrun, wreqs]
+  | cons e es ih =>
+    cases e with
+    | req i =>
+      have := ih (q0 ++ [i])
+      simp only [wrun, wstep, wreqs, List.flatten_cons, List.nil_append] at this ⊢
+      rw [this]; simp
+    | read k =>
+      have := ih (q0.drop k)
+      simp only [wrun, wstep, wreqs, List.flatten_cons] at this ⊢
+      rw [List.append_assoc, this, ← List.append_assoc, List.take_append_drop]
+
+example : wrun [] [.req 1, .req 2, .read 1, .req 3, .read 5] = ([], [[], [], [1], [], [2, 3]]) := by
+  decide
+
 end Sozu.Channel
